@@ -136,13 +136,26 @@ func buildCases(c *Corpus, thorough bool) error {
 				hdrLen = bx.Off + bx.Size
 			}
 		}
+		// quick tier: the last file (never closed: header and duration-from-parts paths, first
+		// segment of a get from its start, following segment of a get from the first) gets the
+		// full alphabet; the first file every 4th offset for the byte-granular deviations
+		sparse := func(o int) bool { return !thorough && t != len(c.Names)-1 && o%4 != 0 }
 		for o := 0; o < len(b); o++ {
+			if sparse(o) {
+				continue
+			}
 			c.Cases = append(c.Cases, Case{Kind: "trunc", Target: t, Off: o})
 		}
 		for o := 0; o < len(b); o++ {
+			if sparse(o) {
+				continue
+			}
 			c.Cases = append(c.Cases, Case{Kind: "zerofill", Target: t, Off: o})
 		}
 		for o := 0; o < len(b); o++ {
+			if sparse(o) {
+				continue
+			}
 			for _, v := range byteVals {
 				if uint32(b[o]) == v {
 					continue
@@ -330,14 +343,15 @@ func main() {
 		return
 	}
 	r := vcommon.Start("C28", "exploration")
-	r.Rule = "one real recording (2 closed segments + 1 never closed); every single deviation of the alphabet applied to the first and the last file " +
+	r.Rule = "one real recording (2 closed segments + 1 never closed); every single deviation of the alphabet applied to the last file and (byte-granular deviations every 4th offset in the quick tier) to the first file " +
 		"(thorough: every file, plus pairs of header deviations), plus foreign files; per case list, get (fmp4, mp4) and API recordings requests. " +
 		"distinct = (kind of deviation, box concerned, status of every request | how the process died)"
 
 	base, err := reclib.TempDir("c28")
 	if err != nil {
-		vcommon.Harness("tempdir: %v", err)
+		harnessErr("tempdir: %v", err)
 	}
+	scratchDir = base
 	defer os.RemoveAll(base)
 
 	// ---- the corpus: made by the real recorder
@@ -352,7 +366,7 @@ func main() {
 	_, err = reclib.Record(recDir, "p", h, func(_, ui, _ int) {
 		s, err2 := reclib.Snapshot(recDir)
 		if err2 != nil {
-			vcommon.Harness("snapshot: %v", err2)
+			harnessErr("snapshot: %v", err2)
 		}
 		if ui == nUnits-1 {
 			beforeClose = s
@@ -362,36 +376,36 @@ func main() {
 		}
 	})
 	if err != nil {
-		vcommon.Harness("recording: %v", err)
+		harnessErr("recording: %v", err)
 	}
 	segs, err := reclib.ParseCorpus(afterClose)
 	if err != nil {
-		vcommon.Harness("the recording cannot be parsed: %v", err)
+		harnessErr("the recording cannot be parsed: %v", err)
 	}
 	if d := reclib.CompareWithSent(h, segs); len(d) != 0 {
-		vcommon.Harness("the recording differs from what was sent: %v", d)
+		harnessErr("the recording differs from what was sent: %v", d)
 	}
 	corpus := &Corpus{Files: beforeClose, Names: reclib.SortedKeys(beforeClose)}
 	if len(corpus.Names) < 3 {
-		vcommon.Harness("expected 3 segment files before closing, got %d", len(corpus.Names))
+		harnessErr("expected 3 segment files before closing, got %d", len(corpus.Names))
 	}
 	last, err := reclib.ParseSegment(corpus.Files[corpus.Names[len(corpus.Names)-1]])
 	if err != nil || last.MvhdDuration != 0 || len(last.Parts) < 2 {
-		vcommon.Harness("the last segment should be unclosed with >= 2 parts: %v %+v", err, last)
+		harnessErr("the last segment should be unclosed with >= 2 parts: %v %+v", err, last)
 	}
 	first, _ := reclib.ParseSegment(corpus.Files[corpus.Names[0]])
 	if first == nil || first.MvhdDuration == 0 {
-		vcommon.Harness("the first segment should be closed")
+		harnessErr("the first segment should be closed")
 	}
 	for _, n := range corpus.Names {
 		st, err2 := reclib.StartFromName(n)
 		if err2 != nil {
-			vcommon.Harness("%v", err2)
+			harnessErr("%v", err2)
 		}
 		corpus.Start = append(corpus.Start, st)
 	}
 	if err = buildCases(corpus, r.Thorough()); err != nil {
-		vcommon.Harness("cases: %v", err)
+		harnessErr("cases: %v", err)
 	}
 	if *flagOne != "" {
 		var cs []Case
@@ -415,10 +429,10 @@ func main() {
 	{
 		f, err2 := os.Create(filepath.Join(base, "corpus.gob"))
 		if err2 != nil {
-			vcommon.Harness("corpus: %v", err2)
+			harnessErr("corpus: %v", err2)
 		}
 		if err2 = gob.NewEncoder(f).Encode(corpus); err2 != nil {
-			vcommon.Harness("corpus: %v", err2)
+			harnessErr("corpus: %v", err2)
 		}
 		f.Close()
 	}
@@ -436,7 +450,7 @@ func main() {
 	for gcd(stride, total) != 1 {
 		stride++
 	}
-	deadline := time.Now().Add(150 * time.Second)
+	deadline := time.Now().Add(100 * time.Second)
 	if r.Thorough() {
 		deadline = time.Now().Add(13 * time.Minute)
 	}
@@ -478,10 +492,10 @@ func main() {
 		}
 		var res Result
 		if err2 := json.Unmarshal(cr.Data, &res); err2 != nil {
-			vcommon.Harness("worker answer: %v", err2)
+			harnessErr("worker answer: %v", err2)
 		}
 		if res.Err != "" {
-			vcommon.Harness("worker: %s (%s)", res.Err, cs)
+			harnessErr("worker: %s (%s)", res.Err, cs)
 		}
 		reqs += len(res.Statuses)
 		for _, na := range res.NoAnswer {
@@ -497,7 +511,7 @@ func main() {
 		}
 	})
 	if err != nil {
-		vcommon.Harness("worker pool: %v", err)
+		harnessErr("worker pool: %v", err)
 	}
 	ks := make([]string, 0, len(kinds))
 	for k := range kinds {
@@ -521,6 +535,7 @@ func main() {
 		"FIFOs are excluded (a blocking open is an environment hang); the harness runs as root, so the unreadable file is readable",
 		"the API recordings endpoints never open segment files; they are probed on every foreign case and on a spread of the others",
 	}
+	_ = os.RemoveAll(base)
 	r.Finish()
 }
 
@@ -616,4 +631,14 @@ func workerMain() {
 		}
 		return res
 	})
+}
+
+var scratchDir string
+
+// harnessErr removes the scratch directory and reports a harness error (exit 2).
+func harnessErr(format string, a ...any) {
+	if scratchDir != "" {
+		_ = os.RemoveAll(scratchDir)
+	}
+	vcommon.Harness(format, a...)
 }
